@@ -26,6 +26,8 @@ type ident struct {
 	cert    *smx509.Certificate
 	key     crypto.PrivateKey       // *sm2.PrivateKey | *rsa.PrivateKey | *ecdsa.PrivateKey
 	parents []*smx509.Certificate // non-nil when the certificate is issued by the intermediate CA
+	raw0    []byte                // copy of cert.Raw taken at creation (certificates handed to the library stay the caller's)
+	fp0     string                // fingerprint of the private key material at creation
 }
 
 // family is one PKI: root CA -> {leaf0, leaf1, leaf3(outsider)}, root -> intermediate -> leaf2.
@@ -133,7 +135,7 @@ func buildFamily(name string, lane byte) (*family, error) {
 		if err != nil {
 			return nil, err
 		}
-		return &ident{name: name + "/" + cn, cert: c, key: k}, nil
+		return &ident{name: name + "/" + cn, cert: c, key: k, raw0: append([]byte{}, c.Raw...), fp0: keyFingerprint(k)}, nil
 	}
 	var err error
 	if f.root, err = mk("root", 4, big.NewInt(1), true, nil); err != nil {
